@@ -62,14 +62,24 @@ pub struct AQ {
     pub wh: Option<WExpr>,
     pub ctx: Option<usize>,
     pub limit: Option<u32>,
+    /// SINCE <bound> USING t (the payload datetime field), bound = 1_700_000_000 + n * 1800; only without PER
+    #[serde(default)]
+    pub since_t: Option<i64>,
 }
 
 impl AQ {
+    fn since(&self) -> String {
+        match (self.since_t, &self.per) {
+            (Some(n), None) => format!(" SINCE \"{}\" USING t", 1_700_000_000i64 + n * 1800),
+            _ => String::new(),
+        }
+    }
     fn selection(&self, td: &TypeDef) -> String {
         let mut s = format!("QUERY {}", td.name);
         if let Some(c) = self.ctx {
             s.push_str(&format!(" FOR {}", ctx_name(c)));
         }
+        s.push_str(&self.since());
         if let Some(w) = &self.wh {
             s.push_str(&format!(" WHERE {}", w.print()));
         }
@@ -80,6 +90,7 @@ impl AQ {
         if let Some(c) = self.ctx {
             s.push_str(&format!(" FOR {}", ctx_name(c)));
         }
+        s.push_str(&self.since());
         if let Some(w) = &self.wh {
             s.push_str(&format!(" WHERE {}", w.print()));
         }
@@ -184,14 +195,15 @@ fn case_strategy(tier: Tier, ex: Excl, wx: crate::props::c02::WhereExcl) -> Boxe
                 prop::option::weighted(0.4, wh),
                 opt_w(if ex.special { 0.0 } else { 0.3 }, 0..n_ctx),
                 opt_w(if ex.limit { 0.0 } else { 0.2 }, 1u32..4),
+                opt_w(if ex.special { 0.0 } else { 0.3 }, 0i64..6),
             )
-                .prop_map(|(mut aggs, mut by, per, wh, ctx, limit)| {
+                .prop_map(|(mut aggs, mut by, per, wh, ctx, limit, since_t)| {
                     aggs.dedup();
                     let mut seen = BTreeSet::new();
                     aggs.retain(|a| seen.insert(a.column()));
                     by.sort();
                     by.dedup();
-                    AQ { aggs, by: by.into_iter().map(|s| s.to_string()).collect(), per: per.map(|s| s.to_string()), wh, ctx, limit }
+                    AQ { aggs, by: by.into_iter().map(|s| s.to_string()).collect(), per: per.map(|s| s.to_string()), wh, ctx, limit, since_t }
                 });
             (Just(cfg), Just(td), Just(n_ctx), ops, tail, prop::collection::vec(q, 5..=tier.pick(12, 20)))
         })
